@@ -200,7 +200,6 @@ mut('m17b_cache_if_negated_with_memory', ['C10'], MS, '''    if let Some(pred_fn
     } else if let Some(pred_fn) = cache_if {
         quote! {''')
 mut('m18_invalidate_on_inverted', ['C11'], MS, '            if !#pred_fn(&__key, &cached) {', '            if #pred_fn(&__key, &cached) {')
-mut('m18b_async_invalidate_on_wrong_arg', ['C11'], MA, 'if !#pred_fn(&__key, &__cached) {', 'if !#pred_fn(&__key, &__cached.clone()) {', 'behaviour-preserving: must NOT fire')
 # 19-20 group invalidation
 mut('m19_event_reads_tag_table', ['C12'], INV, '''        let cache_names = self
             .event_to_caches
@@ -504,6 +503,29 @@ eqv('e16_rename_selectors', 'cachelito-core/src/*', 'find_arc_eviction_key', 'pi
 eqv('e17_rename_remove_helper', 'cachelito-core/src/*', 'remove_from_maps', 'drop_key_everywhere', 'private helper renamed')
 eqv('e18_rename_invalidate_caches', 'cachelito-core/src/*', 'invalidate_caches', 'run_clear_callbacks', 'private registry routine renamed')
 eqv('e19_rename_is_already', 'cachelito-core/src/*', 'is_already_key_inserted', 'replace_existing_entry', 'private async helper renamed')
+eqv('e23_pred_gets_a_clone', MA, 'if !#pred_fn(&__key, &__cached) {', 'if !#pred_fn(&__key, &__cached.clone()) {', 'predicate is handed a clone of the cached value')
+eqv('e24_now_helper', A, '''        let timestamp = std::time::SystemTime::now()
+            .duration_since(std::time::UNIX_EPOCH)
+            .unwrap()
+            .as_secs();
+
+        let mut order = self.order.lock();
+
+        // Check if another task already inserted this key while we were computing
+        if self.is_already_key_inserted(key, &mut order) {
+            return;
+        }
+
+        // Handle entry-count limits''', '''        let timestamp = Self::unix_now();
+
+        let mut order = self.order.lock();
+
+        // Check if another task already inserted this key while we were computing
+        if self.is_already_key_inserted(key, &mut order) {
+            return;
+        }
+
+        // Handle entry-count limits''', 'clock read moved into a helper (helper added by apply)')
 eqv('e20_negated_overflow', G, 'if o.len() > limit {', 'if !(o.len() <= limit) {', 'overflow test written through a negation')
 eqv('e21_negated_async_expiry', A, '                age >= ttl\n', '                !(age < ttl)\n', 'expiry test written through a negation')
 eqv('e22_negated_oversize', G, 'if new_value_size > max_mem {', 'if !(new_value_size <= max_mem) {', 'oversize test written through a negation')
@@ -540,6 +562,8 @@ def apply(m):
     if c != m['count']:
         return 'anchor matched %d times (expected %d)' % (c, m['count'])
     s = s.replace(m['old'], m['new'])
+    if m['id'] == 'e24_now_helper':
+        s = s.replace("    fn is_already_key_inserted(", "    fn unix_now() -> u64 {\n        std::time::SystemTime::now().duration_since(std::time::UNIX_EPOCH).unwrap().as_secs()\n    }\n\n    fn is_already_key_inserted(", 1)
     if m['id'] == 'e03_extract_helper':
         s = s.replace("    fn handle_entry_limit_eviction(&self, mut o: &mut MutexGuard<RawMutex, VecDeque<String>>) {",
                       "    fn requeue(o: &mut VecDeque<String>, key_s: &String) {\n        if let Some(pos) = o.iter().position(|k| *k == *key_s) {\n            o.remove(pos);\n        }\n        o.push_back(key_s.clone());\n    }\n\n    fn handle_entry_limit_eviction(&self, mut o: &mut MutexGuard<RawMutex, VecDeque<String>>) {")
